@@ -5,13 +5,17 @@ M (transcriptions, clause by clause):
 * `finishPar`      — `LineBreaker::break_line`, TeX.2021.816 (crates/boxworks-knuthplass/src/lib.rs:248-268)
 * `postLineBreak`  — `LineBreaker::post_line_break` (same file :272-439), the code AFTER the repairs
                      553bdb4 / c84c5ea (discardable items at the start of a line are pruned, §879)
-* `baselineSkips`  — the `\baselineskip` glue of TeX.2021.679 as the code computes it (:385-418)
+* `interline`, `pushLine`, `lastDepth` — the interline glue as the code computes it (the block
+                     "TeX.2021.888 and TeX.2021.679" of `post_line_break`); S: `texAppend`/`texInterlines` (§679)
 * `sfAdjust`, `sfWord` — `SpaceFactor::adjust`, the loop at the end of `add_word`
                      (crates/boxworks-text/src/lib.rs:122-134, :199-201)
-* `interWordGlue`  — `add_space` (:204-232) AFTER fixes/C12-b.patch (`\spaceskip` is scaled by the
+* `interWordGlue`  — `add_space` (:204-232) as in /repo since 2ef677c (fixes/C12-b.patch) (`\spaceskip` is scaled by the
                      space factor like the font glue, §1043/§1044); `interWordGlueOld` is the
-                     unpatched code, kept to state which theorem it violates.
-* `addText`        — `TextPreprocessor::add_text` word/space structure (crates/boxworks/src/lib.rs:19-30)
+                     code before that commit, kept as the refutation witness.
+* `addText`, `addWords`, `addWord`, `addItem`, `splitWs`, `leadWs` — `TextPreprocessor::add_text`
+                     (crates/boxworks/src/lib.rs:19-30) and `add_word` (boxworks-text), the lig/kern program being
+                     a parameter `run`; S: `textVerdict` (`spell` = words of the text, one glue per blank run)
+* `widthFields`    — the `split(',')`/`trim` of `box linebreak --widths` (crates/boxworks-bin/src/box.rs)
 
 S (the property's own words):
 * `reassemble`     — read the line boxes in order: take away the skips, join the two halves of
@@ -239,13 +243,77 @@ def go (p : Params) (l : List Item) (n : Nat) :
 def postLineBreak (p : Params) (l : List Item) (bs : List Nat) : Except Err (List Line) :=
   go p l bs.length 0 0 none bs
 
-/-- TeX.2021.679 as coded (lib.rs:385-418): the glue pushed before each line box. `init` is
-`none` for an empty vertical list, else the depth of its last box (0 if it has none);
-`hd` = (height, depth) of the line boxes. -/
-def baselineSkips : Option Int → List (Int × Int) → List (Option Int)
+/-! ## Interline glue (TeX.2021.679 as coded, knuthplass lib.rs "TeX.2021.888 and TeX.2021.679") -/
+
+/-- What the backwards scan over `v_list` distinguishes: a box (hbox or vbox) with its depth, or
+anything else (glue, penalty, rule, …). -/
+inductive VNode
+  | box (depth : Int)
+  | other
+  deriving DecidableEq, Repr, Inhabited
+
+/-- The `loop` that walks `v_list` from its end: the first box met. -/
+def firstBox : List VNode → Option Int
+  | [] => none
+  | .box d :: _ => some d
+  | .other :: t => firstBox t
+
+/-- `last_depth`: depth of the last box of the vertical list, `Scaled::ZERO` if there is none. -/
+def lastDepth (v : List VNode) : Int :=
+  match firstBox v.reverse with
+  | some d => d
+  | none => 0
+
+/-- `\baselineskip` is fixed to 12pt in the code. -/
+def codeBaselineSkip : Int := 12 * 65536
+
+/-- One line box is appended: the glue pushed before it (`none` when `v_list` is empty) and the
+vertical list afterwards (`pen` = a penalty node follows the box). -/
+def pushLine (v : List VNode) (h d : Int) (pen : Bool) : Option Int × List VNode :=
+  let g : Option Int := if v.isEmpty then none else some (codeBaselineSkip - h - lastDepth v)
+  (g, v ++ ((match g with | some _ => [VNode.other] | none => []) ++
+        (VNode.box d :: (if pen then [VNode.other] else []))))
+
+/-- The glue pushed before each line box; `lines` = (height, depth, penalty follows). -/
+def interline : List VNode → List (Int × Int × Bool) → List (Option Int)
   | _, [] => []
-  | none, (_, d) :: t => none :: baselineSkips (some d) t
-  | some pd, (h, d) :: t => some (12 * 65536 - h - pd) :: baselineSkips (some d) t
+  | v, (h, d, pen) :: t => (pushLine v h d pen).1 :: interline (pushLine v h d pen).2 t
+
+/-! ### TeX.2021.679 `append_to_vlist` (the specification) -/
+
+inductive TexGlue
+  | noGlue               -- `prev_depth ≤ ignore_depth`: no interline glue
+  | baseline (w : Int)   -- `\baselineskip` glue with its width replaced by `w`
+  | lineskip             -- `\lineskip`
+  deriving DecidableEq, Repr, Inhabited
+
+/-- TeX.2021.212: `ignore_depth = -1000pt`. -/
+def ignoreDepth : Int := -65536000
+
+/-- TeX.2021.679: `if prev_depth > ignore_depth then d := width(baseline_skip) - prev_depth -
+height(b); if d < line_skip_limit then \lineskip else \baselineskip with width d`. -/
+def texAppend (baselineskip lineskiplimit prevDepth h : Int) : TexGlue :=
+  if prevDepth > ignoreDepth then
+    let d := baselineskip - prevDepth - h
+    if d < lineskiplimit then .lineskip else .baseline d
+  else .noGlue
+
+/-- §679 over a sequence of boxes: `prev_depth := depth(b)` after each. -/
+def texInterlines (baselineskip lineskiplimit : Int) : Int → List (Int × Int × Bool) → List TexGlue
+  | _, [] => []
+  | pd, (h, d, _) :: t => texAppend baselineskip lineskiplimit pd h :: texInterlines baselineskip lineskiplimit d t
+
+/-- `prev_depth` of a vertical list built from boxes (by `append_to_vlist`) and material that
+leaves `prev_depth` alone (glue, penalties, kerns): the depth of its last box, `ignore_depth` if
+it has none (TeX.2021.215: a vertical list starts with `prev_depth = ignore_depth`). -/
+def texPrevDepth (v : List VNode) : Int :=
+  match firstBox v.reverse with
+  | some d => d
+  | none => ignoreDepth
+
+def TexGlue.toOpt : TexGlue → Option Int
+  | .baseline w => some w
+  | _ => Option.none
 
 /-! ## The specification of conservation -/
 
@@ -460,7 +528,7 @@ def scaleBySf (g : Glue) (extra sf : Int) : Res Glue :=
     | .panic => .panic
     | .ok sh => .ok { g with w := w, st := st, sh := sh }
 
-/-- `add_space` after fixes/C12-b.patch. -/
+/-- `add_space` (as in /repo since 2ef677c = fixes/C12-b.patch). -/
 def interWordGlue (tp : TextParams) (f : Font) (sf : Int) : Res Glue :=
   if sf = 1000 then
     .ok (if !tp.spaceSkip.isZero then tp.spaceSkip else f.glue)
@@ -521,6 +589,127 @@ def splitAtGlue : List (Option (List Nat)) → List (List Nat)
 
 def spell (items : List (Option (List Nat))) : List (List Nat) :=
   (splitAtGlue items).filter (fun w => !w.isEmpty)
+
+/-! ## The text front end: `add_text`, `add_word` (boxworks lib.rs:19-30, boxworks-text lib.rs `add_word`)
+
+The lig/kern program (`tfm::ligkern::CompiledProgram::run`, property C05) is a parameter `run`. -/
+
+/-- `tfm::ligkern::RunItem`. -/
+inductive RunItem
+  | char (c : Nat)
+  | kern (w : Int)
+  | lig (c : Nat) (orig : List Nat) (lb rb : Bool)
+  deriving DecidableEq, Repr, Inhabited
+
+/-- The items `add_text` pushes (font = the current font everywhere). -/
+inductive TItem
+  | char (c : Nat)
+  | lig (c : Nat) (orig : List Nat) (lb rb : Bool)
+  | kern (w : Int)              -- `KernKind::Normal`
+  | disc                        -- `Discretionary::default()` (TeX.2021.1039)
+  | glue (g : Res Glue)         -- `.panic` = `add_space` panics (`xn_over_d(..).unwrap()`)
+  deriving DecidableEq, Repr
+
+/-- The `match elem` of `add_word`: an empty discretionary follows a hyphen character and a
+ligature whose original characters end with one. -/
+def addItem : RunItem → List TItem
+  | .char c => .char c :: (if c = 45 then [.disc] else [])
+  | .kern w => [.kern w]
+  | .lig c orig lb rb => .lig c orig lb rb :: (if orig.getLast? = some 45 then [.disc] else [])
+
+def addWord (run : List Nat → List RunItem) (w : List Nat) : List TItem :=
+  (run w).flatMap addItem
+
+/-- `char::is_ascii_whitespace`: space, tab, line feed, form feed, carriage return. -/
+def isWs (c : Nat) : Bool := c == 32 || c == 9 || c == 10 || c == 12 || c == 13
+
+/-- `str::split_ascii_whitespace`: the maximal runs of non-blank characters. -/
+def splitWs : List Nat → List (List Nat)
+  | [] => []
+  | c :: t =>
+    if isWs c then splitWs t
+    else
+      match t with
+      | [] => [[c]]
+      | d :: _ =>
+        if isWs d then [c] :: splitWs t
+        else
+          match splitWs t with
+          | w :: ws => (c :: w) :: ws
+          | [] => [[c]]
+
+/-- `text.chars().next().unwrap_or(' ').is_ascii_whitespace()`. -/
+def leadWs : List Nat → Bool
+  | [] => true
+  | c :: _ => isWs c
+
+/-- The loop of `add_text` over the words: `sf` = space factor, `pending` = `pending_space`. -/
+def addWords (run : List Nat → List RunItem) (codes : List Int) (tp : TextParams) (f : Font) :
+    Int → Bool → List (List Nat) → List TItem
+  | _, _, [] => []
+  | sf, pending, w :: ws =>
+    (if pending then [TItem.glue (interWordGlue tp f sf)] else []) ++
+      (addWord run w ++ addWords run codes tp f (sfWord codes sf w) true ws)
+
+/-- `add_text`: `new_paragraph` resets the space factor to 1000. -/
+def addText (run : List Nat → List RunItem) (codes : List Int) (tp : TextParams) (f : Font)
+    (text : List Nat) : List TItem :=
+  addWords run codes tp f 1000 (leadWs text) (splitWs text)
+
+/-- What an item stands for when the list is read back: `none` = a blank. -/
+def TItem.chars : TItem → Option (List Nat)
+  | .char c => some [c]
+  | .lig _ orig _ _ => some orig
+  | .kern _ => some []
+  | .disc => some []
+  | .glue _ => none
+
+def TItem.isGlue : TItem → Bool
+  | .glue _ => true
+  | _ => false
+
+/-- The characters a run of the lig/kern program stands for (C05's `spell`). -/
+def runSpell : List RunItem → List Nat
+  | [] => []
+  | .char c :: t => c :: runSpell t
+  | .kern _ :: t => runSpell t
+  | .lig _ orig _ _ :: t => orig ++ runSpell t
+
+/-- S (text): the list spells the words of the text, and there is exactly one glue item per
+blank run that is followed by a word. -/
+def textVerdict (items : List TItem) (text : List Nat) : Bool × Bool :=
+  let words := splitWs text
+  (decide (spell (items.map TItem.chars) = words),
+   decide ((items.filter TItem.isGlue).length =
+     (if leadWs text then words.length else words.length - 1)))
+
+/-! ## `box linebreak --widths=a,b,c` (boxworks-bin box.rs, `Linebreak::run`):
+`s.split(',').map(|s| Scaled::parse_from_string(s.trim()))` — the splitting part
+(`parse_from_string` itself is property C06's `parseFromString`). -/
+
+/-- `str::split(sep)`: always at least one field. -/
+def splitOnChar (sep : Nat) : List Nat → List (List Nat)
+  | [] => [[]]
+  | c :: t =>
+    if c = sep then [] :: splitOnChar sep t
+    else
+      match splitOnChar sep t with
+      | w :: ws => (c :: w) :: ws
+      | [] => [[c]]
+
+/-- `str::trim` on ASCII text: blanks (`isWs`, plus vertical tab) removed at both ends. -/
+def isTrimWs (c : Nat) : Bool := isWs c || c == 11
+
+def trimWs (l : List Nat) : List Nat := ((l.dropWhile isTrimWs).reverse.dropWhile isTrimWs).reverse
+
+/-- The strings handed to `parse_from_string`, in the order they become line widths. -/
+def widthFields (s : List Nat) : List (List Nat) := (splitOnChar 44 s).map trimWs
+
+/-- `a, b, c`. -/
+def joinComma : List (List Nat) → List Nat
+  | [] => []
+  | [f] => f
+  | f :: g :: r => f ++ (44 :: 32 :: joinComma (g :: r))
 
 /-! ## plain TeX's defaults (what `plain_tex_defaults()` promises) -/
 
